@@ -13,6 +13,7 @@ import (
 	"fmt"
 	"math/big"
 	"os"
+	"path/filepath"
 	"strings"
 	"time"
 
@@ -46,7 +47,8 @@ func LevelName(l security.SecurityLevel) string { return string(l[:3]) }
 type MemCreds map[string][]byte
 
 func (m MemCreds) ReadCredential(path string) ([]byte, error) {
-	if b, ok := m[path]; ok {
+	// like a filesystem, whatever spelling of the path is used
+	if b, ok := m[filepath.Clean(path)]; ok {
 		return b, nil
 	}
 	return nil, fmt.Errorf("memcreds: %s: %w", path, os.ErrNotExist)
